@@ -343,7 +343,7 @@ impl Scenario for C19 {
     const ID: &'static str = "C19";
     const LEVEL: &'static str = "exploration";
     fn runs(tier: Tier) -> u64 {
-        tier.pick(3_000, 200_000)
+        tier.pick(60_000, 4_000_000)
     }
     fn profiles() -> &'static [Profile] {
         &[Profile::Release]
